@@ -183,11 +183,11 @@ Section Listeners.
     | t :: r => (t, r, lookup)
     end.
   (* mclk_lookup *)
-  Fixpoint lookup_loop (fuel:nat) (avtp limit t:N) (q:list N) (lk:bool) : option (N * list N * bool) :=
-    if negb (t mod 2 ^ 32 =? avtp) && (t <? limit) then
+  Fixpoint lookup_loop (fuel:nat) (avtp start t:N) (q:list N) (lk:bool) : option (N * list N * bool) :=
+    if negb (t mod 2 ^ 32 =? avtp) && ((t + M64 - start) mod M64 <? 2 ^ 32) then      (* mclk_timestamp - start < 2^32 in uint64_t *)
       match fuel with
       | O => None
-      | S f => let '(t', q', lk') := get_next q t lk in lookup_loop f avtp limit t' q' lk'
+      | S f => let '(t', q', lk') := get_next q t lk in lookup_loop f avtp start t' q' lk'
       end
     else Some (t, q, lk).
   Definition s32 (x:N) : N * bool := (* two's complement view of a 32-bit value: (magnitude, negative) *)
@@ -202,7 +202,7 @@ Section Listeners.
     let '(t0, q0, lk0) := get_next (c_queue st) (c_prev st) (c_lookup st) in
     let found :=
       if c_lookup st then
-        match lookup_loop (List.length (c_queue st) + N.to_nat 40000) avtp ((t0 + 2 ^ 32) mod M64) t0 q0 lk0 with
+        match lookup_loop (List.length (c_queue st) + N.to_nat 40000) avtp t0 t0 q0 lk0 with
         | Some (t, q, _) => Some (t, q, false)           (* need_mclk_lookup = false after the search *)
         | None => None
         end
